@@ -421,6 +421,13 @@ impl TopicCache {
   }
 }
 
+#[cfg(rustdds_verif)]
+impl TopicCache {
+  pub(crate) fn verif_len(&self) -> usize {
+    self.changes.len()
+  }
+}
+
 // -----------------------------------------------------------------------
 // -----------------------------------------------------------------------
 // -----------------------------------------------------------------------
